@@ -103,6 +103,12 @@ fn run_count(c: &CountCase) -> CaseResult {
     let got = catch(|| format!("{}", HumanCount(c.n))).map_err(|p| Fail::new("panic", format!("HumanCount({}) panicked: {p}", c.n)))?;
     let want = commas(&c.n.to_string());
     ensure!(got == want, "count", "HumanCount({}) = {:?}, expected {:?}", c.n, got, want);
+    // the representation is fixed by the statement: a sign flag, a precision or the alternate flag in the
+    // caller's format string do not change the digits and commas, whatever the magnitude
+    let flagged = catch(|| [format!("{:+}", HumanCount(c.n)), format!("{:.1}", HumanCount(c.n)), format!("{:#}", HumanCount(c.n))]).map_err(|p| Fail::new("panic", format!("HumanCount({}) with format flags panicked: {p}", c.n)))?;
+    for (f, spec) in flagged.iter().zip(["{:+}", "{:.1}", "{:#}"]) {
+        ensure!(*f == want, "count", "HumanCount({}) formatted with {spec} = {f:?}, expected the standard representation {want:?}", c.n);
+    }
     let mut v = Verdict::default();
     v.nontrivial = c.n >= 1000;
     v.label_if(c.n >= 1000, "has_comma");
@@ -262,6 +268,11 @@ fn run_bytes(c: &BytesCase) -> CaseResult {
     check_bytes("BinaryBytes", &b, n, 1024, &BIN)?;
     let k2 = check_bytes("DecimalBytes", &d, n, 1000, &DEC)?;
     ensure!(h == b, "bytes", "HumanBytes({n}) = {h:?} differs from BinaryBytes = {b:?} (documented alias)");
+    // "two decimals (whole numbers for plain bytes)", whatever precision or sign flag the caller's format string carries
+    let flagged = catch(|| [format!("{:.1}", HumanBytes(n)), format!("{:.0}", DecimalBytes(n)), format!("{:.5}", BinaryBytes(n)), format!("{:+}", HumanBytes(n))]).map_err(|p| Fail::new("panic", format!("bytes formatter with format flags panicked for {n}: {p}")))?;
+    for (f, (spec, plain)) in flagged.iter().zip([("{:.1} of HumanBytes", &h), ("{:.0} of DecimalBytes", &d), ("{:.5} of BinaryBytes", &b), ("{:+} of HumanBytes", &h)]) {
+        ensure!(f == plain, "bytes", "{spec}({n}) = {f:?}, expected {plain:?} (value and unit with two decimals)");
+    }
     let mut v = Verdict::default();
     v.nontrivial = k1 > 0 || k2 > 0;
     v.label_if(k1 == 0, "plain");
